@@ -9,6 +9,7 @@ import Bourse.Lemmas.Frame
 import Bourse.Lemmas.ListAux
 import Bourse.Lemmas.RefineStep
 import Bourse.Lemmas.QueueOrder
+import Bourse.Lemmas.NoOverflow
 
 namespace Bourse.Props.C01
 open Bourse
@@ -204,5 +205,45 @@ example :
     rcases hop with h | h | h | h | h | h <;> subst h <;> simp [ValidOp, MAXP]
   · simp only [NoFault, and_true]
     decide
+
+/-! ### The same, for valid histories as the property states them
+
+`NoFault` (the model's overflow / missing-entry flags stay clear) is not an extra assumption: by
+`noFault_iff_feasible` it holds exactly when ids refer to existing orders and the per-side resting
+volume and cumulative traded volume stay below `2^32` — the property's own validity conditions. -/
+
+/-- **Valid histories never fault, and only they don't.** From a new book with a positive tick, for
+operations with volumes ≥ 1 and prices within 32 bits: no overflow, underflow, missing level,
+unknown id or exhausted loop ever happens if and only if every id refers to an existing order and
+both side totals and the traded-volume counter are below `2^32` after every operation. -/
+theorem valid_histories_are_exactly_the_fault_free_ones (t0 tick : Nat) (trading : Bool) (ht : 0 < tick)
+    (ops : List Op) (hv : ∀ op ∈ ops, ValidOp op) :
+    NoFault (Book.new t0 tick trading) ops ↔ Feasible (Book.new t0 tick trading) ops :=
+  noFault_iff_feasible (inv_new t0 tick trading ht) (by simp [Book.new, P32]) ops hv
+
+/-- **C01 for every valid history**: results and complete observations are the reference engine's. -/
+theorem implementation_is_reference_engine_valid (t0 tick : Nat) (trading : Bool) (ops : List Op)
+    (h : ValidHistory t0 tick trading ops) (n : Nat) (hn : ∀ i, i < n → i * tick < P32) :
+    Book.trace n (Book.new t0 tick trading) ops = Ref.trace n (Ref.init t0 tick trading) ops :=
+  implementation_is_reference_engine t0 tick trading h.tick_pos ops h.ops_valid h.noFault n hn
+
+theorem queues_sorted_by_price_valid (t0 tick : Nat) (trading : Bool) (ops : List Op)
+    (h : ValidHistory t0 tick trading ops) (sd : Side) :
+    let r := Ref.run (Ref.init t0 tick trading) ops
+    (r.queue sd).Pairwise (fun i j => Ref.ahead sd (Ref.priceOf r.orders i) (Ref.priceOf r.orders j) = true) :=
+  queues_sorted_by_price t0 tick trading h.tick_pos ops h.ops_valid h.noFault sd
+
+/-- Non-vacuity: the history of the example above is a valid history (decided by evaluation), and so
+is one that fills the side total to `2^32 - 1`; one unit more is not. -/
+example :
+    ValidHistory 0 1 true [.cap .ask 5 1 (some 11), .cap .ask 5 2 (some 11), .cap .bid 7 3 (some 11),
+      .cap .bid 4 4 (some 9), .modify 3 (some 11) none, .cancel 1] ∧
+    Feasible (Book.new 0 1 true) [.cap .ask 4294967290 1 (some 11), .cap .ask 5 2 (some 12)] ∧
+    ¬ Feasible (Book.new 0 1 true) [.cap .ask 4294967290 1 (some 11), .cap .ask 6 2 (some 12)] ∧
+    ¬ Feasible (Book.new 0 1 true) [.cancel 0] := by
+  refine ⟨⟨by decide, ?_, by decide⟩, by decide, by decide, by decide⟩
+  intro op hop
+  simp only [List.mem_cons, List.not_mem_nil, or_false] at hop
+  rcases hop with h | h | h | h | h | h <;> subst h <;> simp [ValidOp, MAXP]
 
 end Bourse.Props.C01
